@@ -149,6 +149,36 @@ def lattice_c03(ctx):
                 why = _judge(vals, ub, 'sig_relaxation of %s over %s' % (name, dom), groups, list(chains.values()))
                 if why:
                     return why, nsolves
+        # ill-scaled exponents with kernel_basis on/off: a posynomial with infimum 1 (x1 -> -inf, x2 -> -inf)
+        G.reset()
+        fi = so.Signomial(np.array([[50.0, 0.0], [0.0, 0.00002], [0.0, 0.0]]), np.array([1.0, 1.0, 1.0]))
+        ubi = float(fi(np.array([-1.0, -1.0e6])))
+        vals = {}
+        for ker in (False, True):
+            G.reset()
+            cl.kernel_basis_age_witnesses(ker)
+            vals[('primal', 'kernel_basis=%s' % ker)] = _solve(lambda: ss.sig_relaxation(fi, None, 'primal'))
+            vals[('dual', 'kernel_basis=%s' % ker)] = _solve(lambda: ss.sig_relaxation(fi, None, 'dual'))
+            nsolves += 2
+        G.reset()
+        why = _judge(vals, ubi, 'sig_relaxation of exp(50 x1) + exp(2e-5 x2) + 1', [list(vals)], [])
+        if why:
+            return why, nsolves
+        # a domain described by two norm constraints (two second-order cones next to each other in X.K): the lens |x| <= 1, |x - (1,0)| <= 1
+        from sageopt.symbolic.signomials import SigDomain
+        xl = cl.Variable(shape=(2,), name='lat_lens_x')
+        ctr = np.array([1.0, 0.0])
+        Xl = SigDomain(2, coniclifts_cons=[cl.vector2norm(xl) <= 1, cl.vector2norm(xl - ctr) <= 1],
+                       gts=[lambda z: 1 - float(np.linalg.norm(z)), lambda z: 1 - float(np.linalg.norm(np.asarray(z) - ctr))], eqs=[])
+        fl = y2[1] + 0.1 * y2[1] ** -1 + 0.5 * y2[0]
+        gl = np.linspace(-1.0, 1.0, 201)
+        ptsl = [np.array([a, b]) for a in np.linspace(0.0, 1.0, 101) for b in gl if a * a + b * b <= 1 and (a - 1) ** 2 + b * b <= 1]
+        ubl = min(float(fl(p_)) for p_ in ptsl)
+        vals = {('primal', 'lens'): _solve(lambda: ss.sig_relaxation(fl, Xl, 'primal')), ('dual', 'lens'): _solve(lambda: ss.sig_relaxation(fl, Xl, 'dual'))}
+        nsolves += 2
+        why = _judge(vals, ubl, 'sig_relaxation of e^x2 + .1 e^-x2 + .5 e^x1 over the lens {|x| <= 1, |x - (1,0)| <= 1}', [list(vals)], [])
+        if why:
+            return why, nsolves
     return None, nsolves
 
 
